@@ -50,6 +50,17 @@ func (pass *DisjunctionOfConstantsToEnum) processDisjunction(_ *Visitor, _ *ast.
 	}
 
 	var identifiedMembers []ast.EnumValue
+	// unions can overlap (`A | B` with a value listed by both): a value is
+	// only made a member once
+	addMember := func(member ast.EnumValue) {
+		for _, known := range identifiedMembers {
+			if valueToString(known.Value) == valueToString(member.Value) {
+				return
+			}
+		}
+
+		identifiedMembers = append(identifiedMembers, member)
+	}
 	// references being resolved: a disjunction can refer to itself
 	resolving := map[ast.RefType]struct{}{}
 
@@ -67,7 +78,7 @@ func (pass *DisjunctionOfConstantsToEnum) processDisjunction(_ *Visitor, _ *ast.
 
 		if resolved.IsConcreteScalar() {
 			if isScalarValidEnumMember(*resolved.Scalar) {
-				identifiedMembers = append(identifiedMembers, ast.EnumValue{
+				addMember(ast.EnumValue{
 					Type:  ast.NewScalar(*scalarKindCandidate),
 					Name:  valueToString(resolved.Scalar.Value),
 					Value: resolved.Scalar.Value,
@@ -94,7 +105,7 @@ func (pass *DisjunctionOfConstantsToEnum) processDisjunction(_ *Visitor, _ *ast.
 					return false
 				}
 
-				identifiedMembers = append(identifiedMembers, member)
+				addMember(member)
 			}
 
 			return true
